@@ -30,6 +30,7 @@ type c18Case struct {
 	Reset    bool        `json:"reset"`    // Client.Reset between transactions
 	Mix      int         `json:"mix"`      // 1, 2: the API used rotates forwards / backwards from transaction to transaction (callback / nil callback / Data())
 	Retry    int         `json:"retry"`    // index+1 of a transaction whose DATA command is refused once (451) by the scripted peer and then issued again: the recipients accepted before stay accepted
+	RsetFail int         `json:"rset_fail"` // index+1 of a transaction in which, after its RCPTs, Client.Reset is answered 451 by the scripted peer: the transaction stays open and is then completed
 	Abandon  int         `json:"abandon"`  // index+1 of a transaction that is abandoned after its RCPTs (DATA refused by the peer with 451); scripted peer
 }
 
@@ -136,6 +137,8 @@ func c18Run(ctx *core.Ctx) {
 					c := m
 					c.Txns, c.Retry = t, retry
 					emit(c)
+					c.Retry, c.RsetFail = 0, retry
+					emit(c)
 				}
 			}
 		}
@@ -158,7 +161,7 @@ func c18Exec(ctx *core.Ctx, c c18Case) {
 			}
 		}
 	}
-	ctx.Eval(fmt.Sprintf("%v|%v|%v|%v|%d", c.Txns, c.Callback, c.NilCB, c.Reset, c.Abandon)+fmt.Sprint("|", c.Mix, "|", c.Retry), nontrivial || c.Retry > 0)
+	ctx.Eval(fmt.Sprintf("%v|%v|%v|%v|%d", c.Txns, c.Callback, c.NilCB, c.Reset, c.Abandon)+fmt.Sprint("|", c.Mix, "|", c.Retry, "|", c.RsetFail), nontrivial || c.Retry > 0 || c.RsetFail > 0)
 	rig := newRig(modeLMTPRcpt, nil)
 	// addresses encode transaction, index and verdict: t<t>r<i>-<ok|fail|rej>@x.test
 	rig.BE.H.Rcpt = func(sess int, to string, o *smtp.RcptOptions) error {
@@ -204,7 +207,7 @@ func c18Exec(ctx *core.Ctx, c c18Case) {
 		}
 		return nil
 	}
-	useFake := c.Abandon > 0 || c.Retry > 0
+	useFake := c.Abandon > 0 || c.Retry > 0 || c.RsetFail > 0
 	for _, t := range c.Txns {
 		for _, r := range t {
 			if r.Code == 251 {
@@ -259,6 +262,9 @@ func c18Exec(ctx *core.Ctx, c c18Case) {
 		}
 		if c.Retry == ti+1 {
 			sender = fmt.Sprintf("dataonce%d@x.test", ti)
+		}
+		if c.RsetFail == ti+1 {
+			sender = fmt.Sprintf("rsetfail%d@x.test", ti)
 		}
 		if err := cl.Mail(sender, nil); err != nil {
 			done()
@@ -348,6 +354,14 @@ func c18Exec(ctx *core.Ctx, c c18Case) {
 				return
 			}
 			continue
+		}
+		if c.RsetFail == ti+1 {
+			// the peer refuses RSET (451): the transaction, with its accepted recipients, is still open
+			if rerr := cl.Reset(); rerr == nil {
+				done()
+				fail("C18:rsetfail-setup", "the scripted peer was expected to refuse RSET")
+				return
+			}
 		}
 		if c.Retry == ti+1 {
 			// the peer answers the first DATA of this transaction with 451; the transaction stays open
@@ -473,7 +487,7 @@ func c18FakeLMTP(f *wire.Fake) {
 	f.Write("220 fake LMTP\r\n")
 	var accepted []string
 	inData := false
-	refuseData, refuseOnce := false, false
+	refuseData, refuseOnce, refuseRset := false, false, false
 	for {
 		l, ok := f.ReadLine()
 		if !ok {
@@ -506,6 +520,7 @@ func c18FakeLMTP(f *wire.Fake) {
 			accepted = nil
 			refuseData = strings.Contains(l, "<nodata") || strings.Contains(l, "<dataonce")
 			refuseOnce = strings.Contains(l, "<dataonce")
+			refuseRset = strings.Contains(l, "<rsetfail")
 			f.Write("250 2.0.0 ok\r\n")
 		case strings.HasPrefix(up, "RCPT"):
 			a := l[strings.Index(l, "<")+1 : strings.Index(l, ">")]
@@ -531,6 +546,9 @@ func c18FakeLMTP(f *wire.Fake) {
 				f.Write("354 go\r\n")
 				inData = true
 			}
+		case up == "RSET" && refuseRset:
+			refuseRset = false
+			f.Write("451 4.3.0 v#no-reset-now\r\n")
 		case up == "RSET":
 			accepted = nil
 			f.Write("250 2.0.0 ok\r\n")
